@@ -16,6 +16,7 @@ from mc import payload as P
 from mc.termcheck import short
 
 PROPERTY = "C12"
+PAYLOAD_SEEDS = {"thorough": [0, 1, 2, 3]}  # the thorough tier repeats the whole enumeration for four payload seeds
 ASSUMPTIONS = [
     "optimality is compared with an independent optimum: exact rationals for integer SPD / Hermitian systems with n <= 6 (complex through the "
     "real embedding), fully re-orthogonalised float64 otherwise and only where cond <= 1e3 and k <= 25 (finite-precision CG departs from the "
